@@ -397,10 +397,14 @@ fn oracle_in(c: &Case, tree: &Tree) -> Verdict {
     }];
 
     // ---- load ------------------------------------------------------------
-    let mut opts = ModelOptions::with_all_ops();
-    opts.enable_optimization(c.optimize);
+    // The first load never optimises: constant folding would *execute*
+    // Identity(w), and a constant that is unusable (see the alignment clause
+    // below) must be reported, not executed.
     let budget = alloc::budget_for(model.len() + scale as usize);
-    let (res, max_alloc) = alloc::measure(budget, || {
+    let do_load = |optimize: bool| -> (Result<Result<Model, String>, vcore::PanicInfo>, usize) {
+      let mut opts = ModelOptions::with_all_ops();
+      opts.enable_optimization(optimize);
+      alloc::measure(budget, || {
         vcore::catch(|| -> Result<Model, String> {
             match c.loader {
                 Loader::File => {
@@ -424,7 +428,9 @@ fn oracle_in(c: &Case, tree: &Tree) -> Verdict {
                 }
             }
         })
-    });
+      })
+    };
+    let (res, max_alloc) = do_load(false);
 
     let traversal = loc.contains("..") || loc.starts_with('/') || loc.contains('/') || loc.contains('\\');
     let in_range = source.as_ref().map(|s| end <= s.len() as u128).unwrap_or(false);
@@ -441,7 +447,7 @@ fn oracle_in(c: &Case, tree: &Tree) -> Verdict {
         );
     }
 
-    let model = match res {
+    let mut model = match res {
         Err(p) => {
             return Verdict::fail(
                 format!("extdata:panic:{}", crate::oracle::psig(&p)),
@@ -497,6 +503,39 @@ fn oracle_in(c: &Case, tree: &Tree) -> Verdict {
                 src.len()
             ),
         );
+    }
+    // ---- the constant must be usable without undefined behaviour ----------
+    for k in crate::oracle::graph_constants(model.verif_graph()) {
+        if let Some((addr, align)) = crate::oracle::misaligned_storage(k) {
+            return Verdict::fail(
+                format!("extdata:misaligned-storage-pointer:{:?}", c.loader).to_lowercase(),
+                format!(
+                    "loader {:?}: location {loc:?} offset {offset} length {length}: the loaded constant {:?} (shape {:?}) is backed by storage at address {addr:#x}, not aligned to {align} bytes: slice::from_raw_parts over it is undefined behaviour even for zero elements (a build with debug assertions aborts in Model::run)",
+                    c.loader,
+                    k.name().unwrap_or("?"),
+                    k.shape()
+                ),
+            );
+        }
+    }
+    // ---- the default (optimising) load must agree ---------------------------
+    if c.optimize {
+        labels.push("also-loaded-with-optimisation");
+        match do_load(true).0 {
+            Ok(Ok(m)) => model = m,
+            Ok(Err(e)) => {
+                return Verdict::fail(
+                    "extdata:optimising-load-refuses-what-plain-load-accepts",
+                    format!("loader {:?}: location {loc:?} offset {offset} length {length}: loads with optimisation off but fails with it on: {e}", c.loader),
+                )
+            }
+            Err(p) => {
+                return Verdict::fail(
+                    format!("extdata:panic:{}", crate::oracle::psig(&p)),
+                    format!("loader {:?}, location {loc:?}, offset {offset}, length {length}: optimising load panicked: {} at {}", c.loader, p.msg, p.loc()),
+                )
+            }
+        }
     }
     // ---- run: Identity(w) must be exactly file[offset..][..length] ----------
     let expected: Vec<u8> = src[offset as usize..(offset + length) as usize].to_vec();
